@@ -233,8 +233,7 @@ def oracle(run, corr, ncases, tag="oracle"):
                             "spec": "ok or DecodeError"})
             continue
         if a != want:
-            wit.append({"kind": kind, "def": c.line, "value": c.vline, "request": r.split()[-1] if kind != 'overwide' else r,
-                        "impl": a, "spec": want})
+            wit.append({"kind": kind, "def": c.line, "value": c.vline, "request_line": r, "impl": a, "spec": want})
     # pass 3: canonical re-encoding of whatever decoded
     a3 = impl(r3)
     r4, ex4 = [], []
@@ -257,7 +256,7 @@ def oracle(run, corr, ncases, tag="oracle"):
     a4 = impl(r4)
     for r, a, (c, b, want) in zip(r4, a4, ex4):
         if a != want:
-            wit.append({"kind": "canonical-redecode", "def": c.line, "input": cd.hx(b), "request": r.split()[-1], "impl": a, "spec": want})
+            wit.append({"kind": "canonical-redecode", "def": c.line, "input": cd.hx(b), "impl": a, "spec": want})
     # nested tail octets
     r5, ex5 = [], []
     for c in good:
@@ -299,8 +298,8 @@ def oracle(run, corr, ncases, tag="oracle"):
     for r, a, c in zip(r6, a6, ex6):
         corr.count(None, "%s: nested-tail" % tag)
         if a != "err DecodeError":
-            wit.append({"kind": "nested-tail-accepted", "def": c.line, "request": r.split()[-1], "impl": a,
-                        "spec": "err DecodeError (tail octets inside a length-checked nested envelope)"})
+            wit.append({"kind": "nested-tail-accepted", "def": c.line, "request_line": r, "impl": a,
+                        "spec": "err DecodeError", "why": "tail octets inside a length-checked nested envelope"})
     corr.distribution["%s: definitions" % tag] = len(cases)
     corr.distribution["%s: max nesting depth" % tag] = max([depth(c.clean['fs']) for c in cases] + [0])
     return wit
@@ -610,6 +609,28 @@ def search(run, corr, deep):
     return found
 
 
+def pipeline(defline, b):
+    """the enc(dec b) laws on the real code for one input; returns a description of the violation or None"""
+    e, _ = cd.parse_env(defline.split())
+    a = impl(["codec.dec %s %s" % (defline, cd.hx(b))])[0]
+    if not a.startswith("ok "):
+        return None if a == "err DecodeError" else "decode raised %s (only DecodeError is the codec's own)" % a
+    tok = a.split()
+    n, vline = int(tok[-1]), " ".join(tok[1:-1])
+    a2 = impl(["codec.enc %s %s" % (defline, vline)])[0]
+    if not a2.startswith("ok "):
+        return "decoded value does not re-encode: %s" % a2
+    cb = cd.unhx(a2.split()[1])
+    if len(cb) != n:
+        return "re-encoding has %d octets, %d were consumed" % (len(cb), n)
+    if no_spare(e['fs']) and cb != b[:n]:
+        return "spare-free definition re-encodes %s, consumed %s" % (cd.hx(cb), cd.hx(b[:n]))
+    a3 = impl(["codec.dec %s %s" % (defline, cd.hx(cb + b[n:]))])[0]
+    if a3 != "ok %s %d" % (vline, n):
+        return "canonical octets decode to %s" % a3
+    return None
+
+
 def replay(run, path):
     rp = json.load(open(path))
     bad = 0
@@ -618,26 +639,38 @@ def replay(run, path):
         if not w:
             print("replay: no concrete input recorded (%s)" % json.dumps(v.get("broken"))[:400])
             continue
-        if "request" in w and w["kind"] == "overwide":
-            req = w["request"]
-        elif w["kind"] in ("inrange-value-not-encodable", "encoded-length-not-declared", "bitfield-layout"):
-            req = "codec.enc %s %s" % (w["def"], w["value"])
-        elif w["kind"] in ("unencodable-int", "wrong-buf-length", "missing-key"):
-            req = None
-        elif "request" in w:
-            req = "codec.dec %s %s" % (w["def"], w["request"])
+        kind = w["kind"]
+        if "request_line" in w:
+            out = impl([w["request_line"]])[0]
+            still = out != w["spec"]
+            print("replay %s\n  request: %s\n  impl   : %s\n  spec   : %s" % (kind, w["request_line"][:400], out[:300], w["spec"][:300]))
+        elif kind in ("inrange-value-not-encodable", "encoded-length-not-declared"):
+            out = impl(["codec.enc %s %s" % (w["def"], w["value"])])[0]
+            still = not out.startswith("ok ")
+            print("replay %s\n  def  : %s\n  value: %s\n  impl : %s\n  spec : %s" % (kind, w["def"][:300], w["value"][:300], out[:300], w["spec"]))
+        elif kind == "bitfield-layout":
+            out = impl(["codec.enc %s %s" % (w["def"], w["value"])])[0]
+            e, _ = cd.parse_env(w["def"].split())
+            val = cd.line_to_val(w["value"])
+            f = [g for g in e['fs'] if g['k'] == 'bits' and g['pres'] == ('a',)][0]
+            want = bits_expected(f, val)
+            got = cd.unhx(out.split()[1])[w["octets_at"]:w["octets_at"] + len(want)] if out.startswith("ok ") else None
+            still = got != want
+            print("replay %s\n  def  : %s\n  value: %s\n  impl : %s\n  spec : %s" % (kind, w["def"][:300], w["value"][:300], out[:300], w["spec"]))
+        elif kind == "seq-zero-item-hang":
+            out = impl(["codec.dec " + w["def"]], limit=0.5)[0]
+            still = out == "err HANG"
+            print("replay %s\n  request: codec.dec %s\n  impl   : %s\n  spec   : terminates" % (kind, w["def"][:300], out))
         elif "input" in w:
-            req = "codec.dec %s %s" % (w["def"], w["input"])
+            why = pipeline(w["def"], cd.unhx(w["input"]))
+            still = why is not None
+            print("replay %s\n  def  : %s\n  input: %s\n  impl : %s\n  spec : %s" % (kind, w["def"][:300], w["input"][:300], why or "laws hold", w.get("spec")))
         else:
-            req = None
-        if req is None:
-            print("replay %s: %s" % (w["kind"], json.dumps(w)[:300]))
-            bad += 1
-            continue
-        out = impl([req])[0]
-        print("replay %s\n  request: %s\n  impl   : %s\n  spec   : %s" % (w["kind"], req[:300], out[:300], w.get("spec")))
-        if w["kind"] == "bitfield-layout" or out != w.get("spec"):
-            bad += 1
+            print("replay %s: %s" % (kind, json.dumps(w)[:300]))
+            still = True
+        bad += bool(still)
     if bad:
         print("VIOLATION property=C16 replay=%s" % path)
+    else:
+        print("replay: no recorded input violates the property on this tree")
     return 1 if bad else 0
